@@ -34,7 +34,7 @@ ToPart(p) == [hist |-> Tup(p.hist), gst |-> Tup(p.gst), value |-> p.value, quali
 ToEv(x, i) == [eid |-> i, time |-> x[1], prio |-> x[2], asset |-> x[3], kind |-> x[4], cancelled |-> x[5],
                pausedAt |-> IF Len(x) >= 7 THEN x[7] ELSE None, arg |-> x[6]]
 DevName(d) == "d" \o ToString(d)
-ToS(s) ==
+ToS5(s, ev) ==
     [now |-> s.now,
      dev |-> [d \in Devs |-> ToDev(s.dev[d], d)],
      down |-> [d \in Devs |-> Tup(s.down[d])],
@@ -51,7 +51,9 @@ ToS(s) ==
      lastlevel |-> [d \in Devs |-> Get(s.lastlevel, DevName(d), None)],
      lastres |-> [r \in Resources |-> IF r \in DOMAIN s.lastres THEN <<s.lastres[r][1], s.lastres[r][2]>>
                                       ELSE <<0, cfg.pools[r]>>],
-     nleaf |-> s.nleaf, inited |-> s.inited]
+     nleaf |-> s.nleaf, inited |-> s.inited,
+     occ |-> [i \in DOMAIN ev.occ |-> Tup(ev.occ[i])], sd |-> [i \in DOMAIN ev.sd |-> Tup(ev.sd[i])]]
+ToS(s) == ToS5(s, [occ |-> <<>>, sd |-> <<>>])
 
 (* comparison with the closed specification ignores event identities *)
 Strip(e) == <<e.time, e.prio, e.asset, e.kind, e.cancelled, e.pausedAt, e.arg>>
@@ -66,7 +68,7 @@ DiffFields(A, B) == {f \in DOMAIN A : A[f] # B[f]}
 
 SpecStep(pre, ev) ==
     IF ev.op = "init" THEN SchedArg(Initialise(pre), pre.now + ev.d, -1, "term", 10, 0)
-    ELSE IF ev.op = "step" /\ ev.direct THEN Script(pre, cfg.script[ev.arg])
+    ELSE IF ev.op = "step" /\ ev.direct THEN Script([pre EXCEPT !.occ = <<>>, !.sd = <<>>], cfg.script[ev.arg])
     ELSE IF ev.op = "step" THEN
         LET cands == {e \in MinEvents(pre.q) : e.asset = ev.asset /\ e.kind = ev.kind /\ e.cancelled = ev.cancelled
                                                /\ e.time = ev.time /\ e.prio = ev.prio /\ e.arg = ev.arg} IN
@@ -82,7 +84,7 @@ DClauses(pre, ev, post) ==
 
 Failed(i) ==
     IF Log[i].k = 0 THEN C("D.Init", Core(ToS(Log[i].st)) = Core(S0))
-    ELSE LET pre == ToS(Log[i - 1].st) post == ToS(Log[i].st) ev == Log[i].ev IN
+    ELSE LET pre == ToS(Log[i - 1].st) post == ToS5(Log[i].st, Log[i].ev) ev == Log[i].ev IN
          DClauses(pre, ev, post)
          \cup ObsClauses(pre, ev, post, aux, Log[i].st, Log[i - 1].st)
 
